@@ -13,7 +13,10 @@ RULE = ("credits: one real machine (credits mode + real attract/game modes on th
         "machine variables, game state, tier counter, earnings and posted events are observed.  Histories are biased "
         "to run into the maximum with a multi-unit coin and to cross tier wrap-arounds and game starts.  "
         "non-trivial = the history contains an accepted coin and at least one of: cap reached, tier bonus granted, "
-        "start denied/accepted, expiry fired; distinct by case hash")
+        "start denied/accepted, expiry fired; distinct by case hash.  units: coin-value/price/tier combinations that "
+        "are NOT restricted to the exact domain (unit not a divisor of the price, lower/equal later tiers, negative "
+        "bonuses); the derived unit, units per game, wrap-around and pricing table are compared with the model and the "
+        "oracle checks that a game costs the configured price; non-trivial = more than one coin value or tier")
 TRUSTED_BASE = [
     "Coq 8.16.1 kernel (coqc), vm_compute for the refutation witness and for evaluating the model in the correspondence run; no native_compute",
     "axioms: none (every Print Assumptions is 'Closed under the global context')",
@@ -107,9 +110,10 @@ def gen_cfg(rng):
                     p2 = max(1, p - rng.choice([1, 2, 4]))      # lower than the previous one: the code skips it
                     tiers.append([p2, rng.randint(1, 6)])
                     continue
-                p = p + rng.choice([1, 2, 3, 4, 6, 8, 12, 16]) * rng.choice([1, 1, 2])
+                cu0 = max(1, py_cu(coins, tiers))
+                p = p + cu0 * rng.choice([1, 2, 2, 3, 4, 6, 8, 12])
                 base = -(-p // p1)
-                tiers.append([p, base + rng.choice([0, 0, 1, 1, 2, 3, 5])])
+                tiers.append([p, base + rng.choice([0, 1, 1, 2, 3, 5])])
         cu = py_cu(coins, tiers)
         price = tiers[0][0] if tiers else 8
         upg = price // cu if cu > 0 else 0
@@ -481,6 +485,18 @@ def oracle(case, out):
             if Fraction(u, upg) != want and not can_expire:
                 fail("balance-formula", "%r: balance went %s -> %s credits, the pricing table yields %s %s" %
                      (o, fmt_credits(pu, upg), fmt_credits(u, upg), want, where))
+        # expirations: while nothing else happens, the balance only changes by a due expiry, which keeps the whole
+        # credits (fractional expiry) or clears everything
+        if k == "wait":
+            if row["expdue"][1]:
+                wantu = 0
+            elif row["expdue"][0]:
+                wantu = pu - pu % upg
+            else:
+                wantu = pu
+            if u != wantu:
+                fail("expiry", "wait: balance went %d -> %d units (units per game %d, due expiries %r) %s" %
+                     (pu, u, upg, row["expdue"], where))
         # epoch bookkeeping of the oracle: what it does not want to assume makes the epoch unknown
         if k == "rc":
             money = 0
@@ -530,11 +546,73 @@ def describe(case):
                                                  "y" if (c["frac_ms"] or c["all_ms"]) else "n", "y" if c["boot_fp"] else "n")
 
 
+# ------------------------------------------------------------------------------------------------
+# suite "units": _calculate_credit_units/_calculate_pricing_tiers on arbitrary (also inexact) coin/price combinations
+def gen_units(rng, tier, i):
+    coins = [rng.choice([1, 2, 3, 4, 5, 6, 8, 10, 12, 16, 20]) for _ in range(rng.choice([0, 1, 1, 2, 3]))]
+    tiers = []
+    if rng.random() < 0.9:
+        p = rng.choice([1, 2, 3, 4, 5, 6, 8, 10, 12, 16, 20, 24])
+        tiers.append([p, 1])
+        for _ in range(rng.choice([0, 0, 1, 2, 3])):
+            p = max(1, p + rng.choice([-2, 0, 1, 2, 3, 4, 5, 8, 12]))
+            tiers.append([p, rng.randint(1, 12)])
+    return {"cfg": {"coins": coins, "labels": [None] * len(coins), "tiers": tiers, "max": 0, "frac_ms": 0, "all_ms": 0,
+                    "evq": [], "boot_fp": False, "bpg": 1}, "ops": []}
+
+
+def oracle_units(case, out):
+    cfg = case["cfg"]
+    if "crash" in out:
+        return [{"sig": "crash:" + out["crash"]["type"], "what": "boot/ops raised %s" % out["crash"]["msg"]}]
+    d = out["derived"]
+    cu, upg = to_int(d["cu8"]), to_int(d["upg"])
+    price = cfg["tiers"][0][0] if cfg["tiers"] else 8
+    bad = []
+    if cu is None or upg is None or cu <= 0 or upg <= 0:
+        bad.append("credit unit %r / units per game %r" % (d["cu8"], d["upg"]))
+    else:
+        if cu * upg != price:
+            bad.append("a game costs %d units of %d ticks = %d ticks, configured price is %d ticks" % (upg, cu, cu * upg, price))
+        for v in cfg["coins"]:
+            if v % cu:
+                bad.append("coin of %d ticks is not a whole number of credit units (%d ticks): the code raises on it" % (v, cu))
+    if not bad:
+        return []
+    # exactly the recorded defect?  (the unit is min(|price - min coin|, min coin, price) instead of a common divisor)
+    ecu = py_cu(cfg["coins"], cfg["tiers"])
+    if cu == ecu and upg == (price // ecu if ecu > 0 else None):
+        return [{"sig": "credit-unit-not-divisor", "what": "; ".join(bad)}]
+    return [{"sig": "unit-calc-other", "what": "; ".join(bad)}]
+
+
+def coq_case_units(case, out):
+    if "crash" in out:
+        return None
+    d = out["derived"]
+    first = [to_int(d["cu8"]), to_int(d["upg"]), to_int(d["W"])] + [to_int(x) for x in d["table"]]
+    first = [x if x is not None else -999999 for x in first]
+    return "((%s, (@nil op)), %s)" % (coq_cfg(case["cfg"]), coqlist([zlist(first)]))
+
+
+def shrink_units(case):
+    cfg = case["cfg"]
+    for i in range(len(cfg["coins"])):
+        c2 = dict(cfg, coins=cfg["coins"][:i] + cfg["coins"][i + 1:], labels=cfg["labels"][1:])
+        yield {"cfg": c2, "ops": []}
+    if len(cfg["tiers"]) > 1:
+        yield {"cfg": dict(cfg, tiers=cfg["tiers"][:-1]), "ops": []}
+
+
 HDR = "From C20 Require Import Model.\n"
 
 SUITES = [
     Suite("credits", gen, run_impl, HDR, coq_case, oracle, shrink, nontrivial,
-          {"quick": 480, "thorough": 24000}, describe=describe, shard=60, case_timeout=120),
+          {"quick": 480, "thorough": 12000}, describe=describe, shard=60, case_timeout=120),
+    Suite("units", gen_units, run_impl, HDR, coq_case_units, oracle_units, shrink_units,
+          lambda c, o: len(c["cfg"]["tiers"]) > 1 or len(c["cfg"]["coins"]) > 1,
+          {"quick": 120, "thorough": 3000}, describe=lambda c: "coins=%d tiers=%d" % (len(c["cfg"]["coins"]), len(c["cfg"]["tiers"])),
+          shard=200, case_timeout=60),
 ]
 
 LEVEL_TEXT = ("Machine-checked proof (Coq) over an integer model of the credits mode that, for every configuration with "
